@@ -55,6 +55,13 @@ def iter_base(t):
     return None
 
 
+def _pairs_up(t):
+    """enumerate(..) over / or directly a zip of order-preserving, unfiltered sequences."""
+    if t[0] == "enum":
+        t = t[1]
+    return t[0] == "zip"
+
+
 def _closure_value(lib, cdef, captured):
     """Return-value terms of closure `cdef` with its argument written ELEM and its captures resolved in the parent's terms."""
     cb = lib.fn(cdef)
@@ -239,11 +246,17 @@ def call_sites(lib, body, o, callee):
             mapping[("field", ("closure_env",), str(k))] = next(iter(ops)) if len(ops) == 1 else ("oneof", ops)
         for ub, ut in body.calls():
             if any(a.get("k") in ("copy", "move") and not a.get("p") and a["l"] == cl for a in ut["args"]) and ut["callee"] in PER_ITEM:
-                bases = {iter_base(src) for src in o.of_operand(ut["args"][0])}
+                srcs = o.of_operand(ut["args"][0])
+                bases = {iter_base(src) for src in srcs}
                 if len(bases) == 1 and None not in bases:
                     mapping[("param", 2)] = ("elem", next(iter(bases)))
+                elif len(srcs) == 1 and all(_pairs_up(src) for src in srcs):
+                    # items of enumerate(zip(a, b)) and the like: (index, (item of a, item of b))
+                    from .analysis import elem_of
+                    mapping[("param", 2)] = elem_of(next(iter(srcs)))
         co = Origins(cb, lib)
+        from .analysis import simplify
         for _, t in cb.calls():
             if t["callee"] == callee:
-                out.append(([{subst(z, mapping) for z in co.of_operand(a)} for a in t["args"]], t["span"]["s"]))
+                out.append(([{simplify(subst(z, mapping)) for z in co.of_operand(a)} for a in t["args"]], t["span"]["s"]))
     return out
